@@ -72,6 +72,20 @@ fn limit_case(size: u64) -> Result<(), String> {
         if res.is_err() {
             return Err(format!("declaring {} refused: {:?}", size, res));
         }
+        // the usize form (the one hash_buf uses) accepts exactly the same sizes and leads to the same result
+        if let Ok(u) = usize::try_from(size) {
+            let mut g3 = Generator::verif_new_with_prefix_zeroes(size);
+            let r3 = guarded(|| g3.set_fixed_input_size_in_usize(u))?;
+            if r3.is_err() {
+                return Err(format!("declaring {} through the usize form refused: {:?}", size, r3));
+            }
+            let mut g4 = Generator::verif_new_with_prefix_zeroes(size);
+            let _ = guarded(|| g4.set_fixed_input_size(size))?;
+            let (f3, f4) = (guarded(|| g3.finalize())?, guarded(|| g4.finalize())?);
+            if f3 != f4 || f3 != fin {
+                return Err(format!("size {}: finalize after the usize declaration {:?}, after the u64 declaration {:?}, undeclared {:?}", size, f3, f4, fin));
+            }
+        }
     } else {
         if res != Err(GeneratorError::FixedSizeTooLarge) {
             return Err(format!("declaring {} gives {:?}", size, res));
@@ -223,7 +237,7 @@ pub fn run(ctx: &Ctx) -> Report {
                     continue;
                 }
                 let zp = total - sl;
-                for (fi, &form) in FORMS3.iter().enumerate() {
+                for (fi, &form) in FORMS4.iter().enumerate() {
                     for hint in [None, Some(total)] {
                         let chunks = vec![Chunk { word: corpus::W[k as usize].to_vec(), count: m, form }];
                         for dirty in [0u8, 1, 2] {
@@ -250,7 +264,7 @@ pub fn run(ctx: &Ctx) -> Report {
                 continue;
             }
             let zp = total - tail.len() as u64;
-            for &form in &FORMS3 {
+            for &form in &FORMS4 {
                 for hint in [None, Some(total)] {
                     for dirty in [0u8, 1, 2] {
                         let chunks = vec![Chunk { word: tail.to_vec(), count: 1, form }];
@@ -284,7 +298,7 @@ pub fn run(ctx: &Ctx) -> Report {
                         continue;
                     }
                     let gap = total - used;
-                    for &form in &FORMS3 {
+                    for &form in &FORMS4 {
                         for hint in [None, Some(total)] {
                             acc.evaluations += 1;
                             acc.nontrivial += 1;
@@ -336,7 +350,7 @@ pub fn run(ctx: &Ctx) -> Report {
     // feeding on at sizes near u64::MAX: the size counter must not wrap around into the accepted range
     let acc = par_shards(6 * 5, |i, acc| {
         let start = u64::MAX - [0u64, 1, 6, 7, 8, 500][i / 5];
-        let form = FORMS[i % 5];
+        let form = FORMS[i % FORMS.len()];
         let case = json!({"zero_prefix": start, "hint": null, "chunks": [{"word": hex(&corpus::W[3]), "count": 70, "form": form_name(form)}]});
         acc.evaluations += 1;
         acc.nontrivial += 1;
